@@ -502,8 +502,30 @@ func (g *bodyGen) valueJSON(t projgen.TypeRef, validate string, depth int) strin
 			return "{}"
 		}
 		parts := make([]string, 0, len(st.Fields))
+		own := map[string]bool{}
+		for _, f := range st.Fields {
+			if !f.Embedded {
+				own[f.JSON] = true
+			}
+		}
 		for _, f := range st.Fields {
 			ft := f.Type
+			if f.Embedded {
+				// promoted fields appear as members of the embedding object; a member the embedding struct
+				// declares itself shadows the promoted one
+				inner := g.valueJSON(ft, "", depth)
+				for _, kv := range splitMembers(inner) {
+					if k, _, _ := strings.Cut(kv, ":"); !own[strings.Trim(k, `"`)] {
+						parts = append(parts, kv)
+						own[strings.Trim(k, `"`)] = true
+					}
+				}
+				continue
+			}
+			if ft.Kind == "time" {
+				parts = append(parts, strconv.Quote(f.JSON)+":"+projgen.Pick(g.r, []string{`"2024-05-06T07:08:09Z"`, `"1999-12-31T23:59:59+02:00"`}))
+				continue
+			}
 			if ft.Kind == "struct" && depth >= 2 {
 				// cut recursion: pointers become null, slices empty, plain nested structs go one level further
 				if ft.Ptr {
@@ -527,6 +549,41 @@ func (g *bodyGen) valueJSON(t projgen.TypeRef, validate string, depth int) strin
 		return "{" + strings.Join(parts, ",") + "}"
 	}
 	return "null"
+}
+
+// splitMembers splits the text of a JSON object produced by valueJSON into its top-level "key":value members.
+func splitMembers(obj string) []string {
+	obj = strings.TrimSpace(obj)
+	if len(obj) < 2 || obj[0] != '{' {
+		return nil
+	}
+	obj = obj[1 : len(obj)-1]
+	var out []string
+	depth, inStr, start := 0, false, 0
+	for i := 0; i < len(obj); i++ {
+		c := obj[i]
+		switch {
+		case inStr:
+			if c == '\\' {
+				i++
+			} else if c == '"' {
+				inStr = false
+			}
+		case c == '"':
+			inStr = true
+		case c == '{' || c == '[':
+			depth++
+		case c == '}' || c == ']':
+			depth--
+		case c == ',' && depth == 0:
+			out = append(out, obj[start:i])
+			start = i + 1
+		}
+	}
+	if strings.TrimSpace(obj[start:]) != "" {
+		out = append(out, obj[start:])
+	}
+	return out
 }
 
 func typeString(t projgen.TypeRef) string {
